@@ -17,6 +17,7 @@ import Tmcg.Model.Cgjkr
     * `rv_share_matches_commitments`  "shares match the verification values":
                                  `g^{x_i} h^{x'_i} = ∏_{j ∈ QUAL} ∏_k C_jk^{(i+1)^k}`
     * `refRound_update`          what the last round of `Refresh` does (link to CgjkrRefresh.lean)
+    * `ref_zx_cong`              the adjusted share of the sharing of zero is the sum over the admitted dealers
 -/
 namespace Tmcg.CgjkrP
 open Tmcg Tmcg.Powm Tmcg.Dkg Tmcg.Grp Tmcg.DkgL Tmcg.DkgP Tmcg.Cgjkr
@@ -419,12 +420,127 @@ theorem rvResolveGo_share_valid (E : Env) (tag : Tag) (rv : Rv) (idx : List Nat)
           · exact e
         exact ih hnd' _ _ _ _ (by rw [hl1, hl2, hlen]) h' hjr (by rw [hl1]; exact hjlen)
 
+/-- `rvResolve` unfolded: the loop of step 1(d), then QUAL and the share -/
+theorem rvResolve_spec (E : Env) (tag : Tag) (rv rv' : Rv) (I I' : Inbox)
+    (h : rvResolve E tag rv I = .ok (rv', I')) :
+    ∃ I1 s sp cm, rvResolveGo E tag rv (List.range E.n) I rv.s rv.sp rv.compl = .ok (I1, s, sp, cm) ∧
+      rv'.s = s ∧ rv'.sp = sp ∧ rv'.qual = (List.range E.n).filter (fun j => !cm.contains j) ∧
+      rv'.C = rv.C ∧ rv'.x = sumMod E.G.q rv'.s rv'.qual ∧ rv'.xp = sumMod E.G.q rv'.sp rv'.qual ∧
+      rv'.ret = some (rv'.qual.contains E.i && decide (rv'.qual.length > E.t)) := by
+  simp only [rvResolve, bind, Except.bind] at h
+  cases hg : rvResolveGo E tag rv (List.range E.n) I rv.s rv.sp rv.compl with
+  | error e => rw [hg] at h; cases h
+  | ok R =>
+    obtain ⟨I1, s, sp, cm⟩ := R
+    rw [hg] at h
+    simp only [pure, Except.pure, Except.ok.injEq, Prod.mk.injEq] at h
+    obtain ⟨rfl, _⟩ := h
+    exact ⟨I1, s, sp, cm, rfl, rfl, rfl, rfl, rfl, rfl, rfl, rfl⟩
+
 /-- shape of the state `rvDeal` produces (all that `rvShare_checked` needs about the first state) -/
 structure RvShape (E : Env) (rv : Rv) : Prop where
   hi : E.i < E.n
   hC : rv.C.length = E.n
   hs : rv.s.length = E.n
   hsp : rv.sp.length = E.n
+
+/-! ### the steps before 1(d) -/
+
+theorem rvReadShares_length (E : Env) (idx : List Nat) (I : Inbox) (s sp : List Int) (cm : List Nat) :
+    (rvReadShares E idx I s sp cm).2.1.length = s.length ∧
+    (rvReadShares E idx I s sp cm).2.2.1.length = sp.length := by
+  induction idx generalizing I s sp cm with
+  | nil => exact ⟨rfl, rfl⟩
+  | cons j rest ih =>
+    unfold rvReadShares
+    split
+    · exact ih _ _ _ _
+    · split
+      · exact ih _ _ _ _
+      · simp only
+        split
+        · exact ⟨by rw [(ih _ _ _ _).1, List.length_set], by rw [(ih _ _ _ _).2]⟩
+        · exact ⟨by rw [(ih _ _ _ _).1, List.length_set], by rw [(ih _ _ _ _).2, List.length_set]⟩
+
+theorem rv_cps_set_mono (cps : List (List Nat)) (who j k c : Nat) (h : c ∈ cps.getD k []) :
+    c ∈ (cps.set who (cps.getD who [] ++ [j])).getD k [] := by
+  by_cases hk : k = who
+  · subst hk
+    by_cases hl : k < cps.length
+    · simp only [List.getD_eq_getElem?_getD, List.getElem?_set_self hl, Option.getD_some]
+      exact List.mem_append_left _ (by simpa [List.getD_eq_getElem?_getD] using h)
+    · rw [List.set_eq_of_length_le (Nat.le_of_not_lt hl)]
+      exact h
+  · simpa [List.getD_eq_getElem?_getD, Ne.symm hk] using h
+
+/-- step 1(c) only appends to the lists of complainers -/
+theorem rvReadComplaints_cps (E : Env) (tag : Tag) (j f it : Nat) (dup : List Nat) (I : Inbox)
+    (cnt cf cm : List Nat) (cps : List (List Nat)) (k c : Nat) (h : c ∈ cps.getD k []) :
+    c ∈ (rvReadComplaints E tag j f it dup I cnt cf cm cps).2.2.2.2.getD k [] := by
+  induction f generalizing it dup I cnt cf cm cps with
+  | zero => exact h
+  | succ f ih =>
+    unfold rvReadComplaints
+    split
+    · exact h
+    · simp only
+      split
+      · split
+        · exact ih _ _ _ _ _ _ _ (rv_cps_set_mono _ _ _ _ _ h)
+        · exact rv_cps_set_mono _ _ _ _ _ h
+      · split
+        · split
+          · exact ih _ _ _ _ _ _ _ h
+          · exact h
+        · exact h
+
+theorem rvCollectGo_cps (E : Env) (tag : Tag) (idx : List Nat) (I : Inbox)
+    (cnt cf cm : List Nat) (cps : List (List Nat)) (k c : Nat) (h : c ∈ cps.getD k []) :
+    c ∈ (rvCollectGo E tag idx I cnt cf cm cps).2.2.2.2.getD k [] := by
+  induction idx generalizing I cnt cf cm cps with
+  | nil => exact h
+  | cons j rest ih =>
+    unfold rvCollectGo
+    split
+    · exact ih _ _ _ _ _ h
+    · have h1 := rvReadComplaints_cps E tag j (E.n + 1) 0 [] I cnt cf cm cps k c h
+      generalize rvReadComplaints E tag j (E.n + 1) 0 [] I cnt cf cm cps = r at h1
+      obtain ⟨I1, cnt1, cf1, cm1, cps1⟩ := r
+      exact ih _ _ _ _ _ h1
+
+theorem rvCollect_spec (E : Env) (tag : Tag) (rv rv' : Rv) (I I' : Inbox) (ops : List Op)
+    (h : rvCollect E tag rv I = (rv', I', ops)) :
+    rv'.C = rv.C ∧ rv'.s = rv.s ∧ rv'.sp = rv.sp ∧
+      ∀ k c, c ∈ rv.complainers.getD k [] → c ∈ rv'.complainers.getD k [] := by
+  unfold rvCollect at h
+  have h1 := fun k c => rvCollectGo_cps E tag (List.range E.n) I rv.cnt [] [] rv.complainers k c
+  generalize rvCollectGo E tag (List.range E.n) I rv.cnt [] [] rv.complainers = r at h h1
+  obtain ⟨I1, cnt, cf, cm, cps⟩ := r
+  simp only [Prod.mk.injEq] at h
+  obtain ⟨rfl, _, _⟩ := h
+  exact ⟨rfl, rfl, rfl, h1⟩
+
+theorem rvVerify_spec (E : Env) (tag : Tag) (rv rv' : Rv) (I I' : Inbox) (ops : List Op)
+    (h : rvVerify E tag rv I = .ok (rv', I', ops)) :
+    ∃ cm2 cm3, rvCheck E rv.zero rv'.C rv'.s rv'.sp (List.range E.n) cm2 = .ok cm3 ∧
+      rv'.complainers = (List.range E.n).map
+        (fun j => if (sortUniq E.n cm3).contains j then [E.i] else []) ∧
+      rv'.s.length = rv.s.length ∧ rv'.sp.length = rv.sp.length := by
+  unfold rvVerify at h
+  generalize rvReadC E tag (List.range E.n) I rv.C [] = rc at h
+  obtain ⟨I1, C, cm1⟩ := rc
+  simp only at h
+  have hl := rvReadShares_length E (List.range E.n) I1 rv.s rv.sp cm1
+  generalize rvReadShares E (List.range E.n) I1 rv.s rv.sp cm1 = rs at h hl
+  obtain ⟨I2, s, sp, cm2⟩ := rs
+  simp only [bind, Except.bind] at h
+  cases hck : rvCheck E rv.zero C s sp (List.range E.n) cm2 with
+  | error e => rw [hck] at h; cases h
+  | ok cm3 =>
+    rw [hck] at h
+    simp only [pure, Except.pure, Except.ok.injEq, Prod.mk.injEq] at h
+    obtain ⟨rfl, _, _⟩ := h
+    exact ⟨cm2, cm3, hck, rfl, hl.1, hl.2⟩
 
 /-- **"A dealer with inconsistent shares is disqualified or forced to publish consistent ones."**
     Party `i` runs the three receiving steps of `Share` on ARBITRARY inboxes `I0 I1 I2`.  Then for every
@@ -439,18 +555,59 @@ theorem rvShare_checked (E : Env) (tag : Tag) (rv0 rv1 rv2 rv3 : Rv) (I0 I0' I1 
     ∀ j ∈ rv3.qual, j ≠ E.i →
       EqS E (getRow rv3.C j) (getI rv3.s j) (getI rv3.sp j) ∨
       EqF E (getRow rv3.C j) (getI rv3.s j) (getI rv3.sp j) := by
-  sorry
+  obtain ⟨cm2, cm3, hck, hcps, hl1, hl1'⟩ := rvVerify_spec E tag rv0 rv1 I0 I0' ops1 h1
+  obtain ⟨hC2, hs2, hsp2, hmono⟩ := rvCollect_spec E tag rv1 rv2 I1 I1' ops2 h2
+  obtain ⟨I3, s, sp, cm, hgo, hs3, hsp3, hq3, hC3, _, _, _⟩ := rvResolve_spec E tag rv2 rv3 I2 I2' h3
+  intro j hjq hji
+  rw [hq3] at hjq
+  obtain ⟨hjr, hjcm⟩ := List.mem_filter.1 hjq
+  have hjn : j < E.n := List.mem_range.1 hjr
+  have hjcm' : j ∉ cm := by simpa using hjcm
+  have hlen : rv2.s.length = rv2.sp.length := by rw [hs2, hsp2, hl1, hl1', hsh.hs, hsh.hsp]
+  have hjlen : j < rv2.s.length := by rw [hs2, hl1, hsh.hs]; exact hjn
+  rw [hC3, hs3, hsp3]
+  by_cases hc : j ∈ cm3
+  · right
+    refine rvResolveGo_share_valid E tag rv2 _ List.nodup_range I2 _ _ _ _ _ _ _ hlen hgo j hjr hji
+      hjlen hjcm' (hmono j E.i ?_)
+    have hsu : j ∈ sortUniq E.n cm3 :=
+      List.mem_filter.2 ⟨hjr, by simpa using hc⟩
+    rw [hcps]
+    simp [List.getD_eq_getElem?_getD, hjn, hsu]
+  · obtain ⟨_, hsnd⟩ := rvCheck_sound E rv0.zero rv1.C rv1.s rv1.sp _ _ _ hck
+    have hS := (hsnd j hjr hc).1
+    rcases rvResolveGo_share_kept_or_valid E tag rv2 _ List.nodup_range I2 _ _ _ _ _ _ _ hlen hgo j hjlen with
+      ⟨e1, e2⟩ | hF
+    · left
+      rw [e1, e2, hC2, hs2, hsp2]
+      exact hS
+    · right
+      exact hF
 
 /-- the share and its companion are the sums over QUAL (definition of `rvResolve`) -/
 theorem rvResolve_x (E : Env) (tag : Tag) (rv rv' : Rv) (I I' : Inbox)
     (h : rvResolve E tag rv I = .ok (rv', I')) :
     rv'.x = sumMod E.G.q rv'.s rv'.qual ∧ rv'.xp = sumMod E.G.q rv'.sp rv'.qual ∧
       rv'.ret = some (rv'.qual.contains E.i && decide (rv'.qual.length > E.t)) ∧ rv'.C = rv.C := by
-  sorry
+  obtain ⟨_, _, _, _, _, _, _, _, hC, hx, hxp, hret⟩ := rvResolve_spec E tag rv rv' I I' h
+  exact ⟨hx, hxp, hret, hC⟩
 
 variable {G : Dkg.Grp} [Fact (Nat.Prime G.p.natAbs)]
 
 set_option linter.unusedSectionVars false
+
+theorem rv_h_zpow_listSum (hG : ValidGrp G) (l : List Int) :
+    cp G G.h ^ l.sum = (l.map (fun e => cp G G.h ^ e)).prod := by
+  induction l with
+  | nil => simp
+  | cons a l ih => simp only [List.sum_cons, List.map_cons, List.prod_cons, zpow_add₀ (pl_h_unit hG), ih]
+
+omit [Fact (Nat.Prime G.p.natAbs)] in
+theorem rv_prod_map_mul {R : Type} [CommMonoid R] (l : List Nat) (f g : Nat → R) :
+    (l.map f).prod * (l.map g).prod = (l.map (fun j => f j * g j)).prod := by
+  induction l with
+  | nil => simp
+  | cons a l ih => simp only [List.map_cons, List.prod_cons, ← ih, mul_mul_mul_comm]
 
 /-- **"Shares match the verification values."**  If for every dealer `j` of QUAL the pair
     `(s_j, s'_j)` satisfies `g^{s_j} h^{s'_j} = ∏_k C_jk^{x^k}` (in the field; `x = i + 1` the party's
@@ -462,21 +619,104 @@ theorem rv_share_matches_commitments (hG : ValidGrp G) (qual : List Nat) (C : Li
       powProdFrom x 0 ((getRow C j).map (cp G))) :
     cp G G.g ^ (sumMod G.q s qual) * cp G G.h ^ (sumMod G.q sp qual) =
       (qual.map (fun j => powProdFrom x 0 ((getRow C j).map (cp G)))).prod := by
-  sorry
+  obtain ⟨hs, _, _⟩ := sumMod_val (G := G) hG.vg.q_pos s qual
+  obtain ⟨hsp, _, _⟩ := sumMod_val (G := G) hG.vg.q_pos sp qual
+  have hc : cq G (sumMod G.q s qual) = cq G ((qual.map (fun j => getI s j)).sum) := by
+    rw [hs, pl_cq_listSum, List.map_map]
+    rfl
+  have hc' : cq G (sumMod G.q sp qual) = cq G ((qual.map (fun j => getI sp j)).sum) := by
+    rw [hsp, pl_cq_listSum, List.map_map]
+    rfl
+  rw [g_zpow_congr hG _ _ hc, h_zpow_congr hG _ _ hc', pl_g_zpow_listSum hG, rv_h_zpow_listSum hG,
+    List.map_map, List.map_map, rv_prod_map_mul]
+  congr 1
+  apply List.map_congr_left
+  intro j hj
+  exact h1 j hj
 
-/-- **The last round of `Refresh`.**  When the call returns `true` for a party that does not use the
-    `simulate_faulty_behaviour` switch, its new share is the old one plus its share of the joint
-    sharing of zero, `QUAL` becomes the set of dealers of that sharing (as key generation indices), and
-    the commitments of these dealers are multiplied coefficient by coefficient; nothing else changes —
-    in particular the public key `y` is no member of the state the call works on. -/
+omit [Fact (Nat.Prime G.p.natAbs)] in
+/-- rows whose index is not hit by the fold are untouched -/
+theorem rv_foldl_set_other (g : Nat → Nat) (F : List (List Int) → Nat → List Int) (l : List Nat)
+    (C0 : List (List Int)) (it : Nat) (hit : it ∉ l.map g) :
+    getRow (l.foldl (fun C j => C.set (g j) (F C j)) C0) it = getRow C0 it := by
+  induction l generalizing C0 with
+  | nil => rfl
+  | cons a l ih =>
+    simp only [List.map_cons, List.mem_cons, not_or] at hit
+    simp only [List.foldl_cons]
+    rw [ih _ hit.2, rv_getRow_set_ne _ _ _ _ hit.1]
+
+omit [Fact (Nat.Prime G.p.natAbs)] in
+theorem rv_cq_foldl_sub (s : List Int) (l : List Nat) (a : Int) :
+    cq G (l.foldl (fun acc j => acc - getI s j) a) = cq G a - (l.map (fun j => cq G (getI s j))).sum := by
+  induction l generalizing a with
+  | nil => simp
+  | cons j l ih =>
+    simp only [List.foldl_cons, List.map_cons, List.sum_cons, ih]
+    simp only [cq, Int.cast_sub]
+    ring
+
+omit [Fact (Nat.Prime G.p.natAbs)] in
+theorem rv_sum_filter_split {R : Type} [AddCommMonoid R] (l : List Nat) (f : Nat → R) (keep : Nat → Bool) :
+    (l.map f).sum = ((l.filter keep).map f).sum + ((l.filter (fun j => !keep j)).map f).sum := by
+  induction l with
+  | nil => simp
+  | cons a l ih =>
+    cases hk : keep a
+    · simp [hk, ih, add_left_comm]
+    · simp [hk, ih, add_assoc]
+
+omit [Fact (Nat.Prime G.p.natAbs)] in
+/-- **The adjusted share of the sharing of zero** (repair a457dd1): subtracting (without reduction) the
+    shares of the dealers that are not admitted from `x_i = Σ_{QUAL} s_j mod q` leaves a value that is
+    congruent mod `q` to the sum of the shares of the admitted dealers.  (`qual.Nodup` is not needed.) -/
+theorem ref_zx_cong (hq : 0 < G.q) (qual : List Nat) (keep : Nat → Bool) (s : List Int) :
+    cq G ((qual.filter (fun j => !keep j)).foldl (fun acc j => acc - getI s j) (sumMod G.q s qual)) =
+      ((qual.filter keep).map (fun j => cq G (getI s j))).sum := by
+  have hs : cq G (sumMod G.q s qual) = (qual.map (fun j => cq G (getI s j))).sum := by
+    have h := (pl_sumMod_aux (G := G) hq s qual 0 ⟨le_refl _, hq⟩).1
+    rw [cq_zero, zero_add] at h
+    exact h
+  rw [rv_cq_foldl_sub, hs, rv_sum_filter_split qual (fun j => cq G (getI s j)) keep]
+  ring
+
+/-- **The last round of `Refresh`** (code after the repair a457dd1).  When the call returns `true` for a
+    party that does not use the `simulate_faulty_behaviour` switch: the dealers of the joint sharing of
+    zero that are not in the current `QUAL` are dropped (`zq` = the admitted ones), their shares are
+    subtracted again from the party's share of the sharing (`zx`, `zxp`), the new share is the old one
+    plus `zx`, `QUAL` becomes the set of admitted dealers (as key generation indices), and the
+    commitments of these dealers are multiplied coefficient by coefficient; nothing else changes — in
+    particular the public key `y` is no member of the state the call works on. -/
 theorem refRound_update (G : Dkg.Grp) (weak : List Nat) (strong : List Int) (st st' : RSt) (I I' : Inbox)
     (hsfb : st.sfb = false)
     (h : refRound G weak strong 3 st I = .ok (.done st' I' true)) :
-    st'.x = (st.x + st'.zr.x) % G.q ∧ st'.xp = (st.xp + st'.zr.xp) % G.q ∧
+    st'.x = (st.x + st'.zx) % G.q ∧ st'.xp = (st.xp + st'.zxp) % G.q ∧
+    st'.zq = st'.zr.qual.filter (fun j => st.qual.contains (getN st.sub j)) ∧
+    st'.zx = (st'.zr.qual.filter (fun j => !st.qual.contains (getN st.sub j))).foldl
+      (fun acc j => acc - getI st'.zr.s j) st'.zr.x ∧
+    st'.zxp = (st'.zr.qual.filter (fun j => !st.qual.contains (getN st.sub j))).foldl
+      (fun acc j => acc - getI st'.zr.sp j) st'.zr.xp ∧
     st'.zr.x = sumMod G.q st'.zr.s st'.zr.qual ∧ st'.zr.xp = sumMod G.q st'.zr.sp st'.zr.qual ∧
-    st'.qual = st'.zr.qual.map (fun j => getN st.sub j) ∧
+    st'.qual = st'.zq.map (fun j => getN st.sub j) ∧
     st'.zr.ret = some true ∧
     (∀ it, it ∉ st'.qual → getRow st'.C it = getRow st.C it) := by
-  sorry
+  simp only [refRound, show (3 : Nat) ≠ 0 by decide, show (3 : Nat) ≠ 1 by decide,
+    show (3 : Nat) ≠ 2 by decide, if_false, bind, Except.bind] at h
+  cases hr : rvResolve (st.env G) (tagZ st.sub.length) st.zr I with
+  | error e => rw [hr] at h; cases h
+  | ok R =>
+    obtain ⟨zr, I1⟩ := R
+    rw [hr] at h
+    obtain ⟨hx, hxp, hret, _⟩ := rvResolve_x _ _ _ _ _ _ hr
+    simp only [hsfb, Bool.false_and, pure, Except.pure] at h
+    split at h
+    · simp at h
+    · rename_i hrt
+      simp only [Bool.false_eq_true, if_false, Int.add_zero, Except.ok.injEq, ROut.done.injEq] at h
+      obtain ⟨rfl, _, _⟩ := h
+      have hrt' : zr.ret = some true := by simpa using hrt
+      refine ⟨rfl, rfl, rfl, rfl, rfl, hx, hxp, rfl, hrt', ?_⟩
+      intro it hit
+      exact rv_foldl_set_other _ _ _ _ _ hit
 
 end Tmcg.CgjkrP
